@@ -721,6 +721,7 @@ func (fc *followerController) handleSnapshot(stream proto.OxiaLogReplication_Sen
 		fc.closeStreamNoMutex(errors.Wrap(err, "Failed to update term in db"))
 		return
 	}
+	newDb.EnableNotifications(fc.termOptions.NotificationsEnabled)
 
 	commitOffset, err := newDb.ReadCommitOffset()
 	if err != nil {
